@@ -35,6 +35,8 @@ func init() {
 		}
 		if oList, ok := args[0].(*List); ok {
 			listSelf.Items = append(listSelf.Items, oList.Items...)
+		} else if err := listSelf.ExtendSequence(args[0]); err != nil {
+			return nil, err
 		}
 		return NoneType{}, nil
 	}, 0, "extend([item])")
@@ -311,7 +313,16 @@ func (a *List) M__iadd__(other Object) (Object, error) {
 		a.Extend(b.Items)
 		return a, nil
 	}
-	return NotImplemented, nil
+	if _, ok := other.(*Type); ok {
+		return NotImplemented, nil
+	}
+	if _, err := Iter(other); err != nil {
+		return NotImplemented, nil
+	}
+	if err := a.ExtendSequence(other); err != nil {
+		return nil, err
+	}
+	return a, nil
 }
 
 func (l *List) M__mul__(other Object) (Object, error) {
